@@ -89,6 +89,9 @@ func (m *mon) derive() {
 }
 
 func (m *mon) finalWorkerStatus() int {
+	if m.e.statusOverride != 0 {
+		return m.e.statusOverride
+	}
 	if len(m.status) == 0 {
 		return 0
 	}
